@@ -180,6 +180,28 @@ func (e *Enc) call(f *frame, c *ssa.CallCommon, instr *ssa.Call, pos token.Pos) 
 		// the variable holds one of two known functions: case split
 		return e.callSel(f, sel, args, pos, pack, freshResults)
 	}
+	if f.con != nil && len(f.con.CallAsserts) > 0 {
+		// call-site assertions on calls through a function value: "<pkg.FuncType>#n"
+		// (named function types) or "dynamic#n"
+		disp := "dynamic"
+		if isNamedOrAlias(c.Value.Type()) {
+			disp = typeKey(c.Value.Type())
+		}
+		n := f.ncallAll[disp]
+		f.ncallAll[disp]++
+		for _, ca := range f.con.CallAsserts {
+			if ca.Callee == disp && ca.N == n && !ca.After {
+				env := e.cellEnv(f, pos, e.cur.clone())
+				sig, _ := c.Value.Type().Underlying().(*types.Signature)
+				for i, a := range args {
+					if sig != nil && i < sig.Params().Len() {
+						env.names[fmt.Sprintf("arg%d", i)] = TV{V: a, Ty: sig.Params().At(i).Type()}
+					}
+				}
+				e.callAssert(f, disp, n, ca, env, pos)
+			}
+		}
+	}
 	if n := c.Value.Type(); isNamedOrAlias(n) {
 		// a callback of a named function type with an assumed contract
 		key := "functype " + typeKey(n)
